@@ -21,16 +21,20 @@ LEVEL = "model_checking"
 def run(ctx):
     quick = ctx.tier == "quick"
     consts = {
-        "MaxN": "4" if quick else "6",
+        "MaxN": "4" if quick else "5",
         "MinN": "2",
         "KSet": "{1,2,3,1000}" if quick else "{1,2,3,4,5,1000}",
         "ASet": "{1000,0,1,999}" if quick else "{1000,0,1,2,999}",
-        "OSet": "{<<1,-1>>, <<0,1,3>>, <<1,1,0>>}" if quick
-                else "{<<1,-1>>, <<0,1,3>>, <<1,1,0>>, <<0,1,2,4>>, <<1,0,1,0>>}",
+        "OSet": "{<<1,-1>>, <<0,1,3>>, <<1,1,0>>}",
         "ShiftSet": "{<<1,0>>, <<0,1>>, <<1,1>>, <<2,1>>, <<1,2,0,1,2,1,0,2,1,1,0,2>>, <<0,1,1,0,2,1,1,2>>}",
         "AlgSet": '{"row","col"}',
     }
     cases = eng.generate(ctx, consts, "non-commuting clock systems, both algorithms")
+    if not quick:
+        # four-level systems: short runs only (the untruncated networks grow like 16^N)
+        c4 = dict(consts, MaxN="3", KSet="{1,2,1000}", ASet="{1000,1}", OSet="{<<0,1,2,4>>, <<1,0,1,0>>}",
+                  ShiftSet="{<<1,0>>, <<2,1>>, <<1,3,0,2,1,1>>}")
+        cases += eng.generate(ctx, c4, "four-level clock systems")
     jobs = []
     for idx, case in enumerate(cases):
         sh = case["sh"]
